@@ -519,28 +519,32 @@ def run_engine(ctx, cases_path):
 
 
 def tables_current():
-    """True when coq/theories/GeneratedKernelTables.v is what the translator
-    produces for THIS check's tree (a concurrent check of another tree - other
-    engines call translate_all with their own VERIF_REPO - may have rewritten it
-    between translation and compilation)."""
+    """False when the proof run may have compiled a GeneratedKernelTables.v that
+    is not the translation of THIS check's tree: other engines call
+    translate_all with their own VERIF_REPO and may rewrite the file between
+    translation and compilation.  Decided from the file's content and the
+    relative age of the .v and its .vo."""
     tmp = os.path.join(vc.BUILD, "work", "C13", "gen_check")
     os.makedirs(tmp, exist_ok=True)
     rc, _ = vc.run([os.sys.executable, os.path.join(vc.VERIF, "translate", "kernel_tables.py"), vc.REPO, tmp], timeout=120)
     if rc != 0:
         return True  # does not parse: nothing to compare, the failure is genuine
+    v = os.path.join(vc.COQ, "theories", "GeneratedKernelTables.v")
     try:
-        a = open(os.path.join(tmp, "GeneratedKernelTables.v")).read()
-        b = open(os.path.join(vc.COQ, "theories", "GeneratedKernelTables.v")).read()
+        same = open(os.path.join(tmp, "GeneratedKernelTables.v")).read() == open(v).read()
+        tv, tvo = os.path.getmtime(v), os.path.getmtime(v + "o")
     except OSError:
         return True
-    return a == b
+    # same content: the .vo must be younger than the .v; other content: it must have
+    # been written after the compilation
+    return (tvo >= tv) if same else (tv > tvo)
 
 
 def check(ctx, replay=None):
     pid = ctx.pid
     for attempt in range(4):
         ctx.proof = vc.prove(pid)
-        if tables_current():
+        if tables_current() and "inconsistent assumptions" not in (ctx.proof.log or ""):
             break
         vc.log("note: GeneratedKernelTables.v was rewritten by a concurrent check of another tree; proving again")
     if not ctx.proof.ok:
